@@ -1,5 +1,5 @@
 """C05 IP filter: plugin for ./check (see lib/vf/driver.py for the protocol)."""
-from vf.coqterm import N, B, L, T, Opt, Rec
+from vf.coqterm import N, B, L, T, Opt, Rec, Nat
 
 ID = "C05"
 COQ_TARGETS = ["props/C05.vo", "props/C05Mux.vo", "model/IPFilterCheck.vo"]
@@ -35,7 +35,8 @@ RULE = ("ipf cases: 1-3 filters (allow/block lists of addresses and CIDRs, prima
         "unparsable client(+8) mapped entry(+16) chain of several filters(+32) proper CIDR(+64). "
         "mux cases: server/rule/path filters x request sequences (client via RemoteAddr / X-Real-IP / X-Forwarded-For) on three real mux "
         "instances (cache on, cache off, filter-less twin); non-trivial = non-empty sequence; classes add: some request denied(+1) cache hit(+2) "
-        "denied on a hit(+4) denied where a route exists(+8) denied where none exists(+16) twin both dispatches and refuses(+32). "
+        "denied on a hit(+4) denied where a route exists(+8) denied where none exists(+16) twin both dispatches and refuses(+32) sequence with reload steps (identical spec / other option / other filters, "
+        "applied to all three instances)(+64) request denied after a reload on a key served before it(+128). "
         "distinct = distinct (group, input) hashes among non-trivial cases")
 TRUSTED_BASE = [
     "model coq/model/IPFilter.v is hand-written; tied to pkg/util/ipfilter and to muxInstance.search by the per-run correspondence (sampled)",
@@ -138,25 +139,35 @@ def encode(c):
         ids = {b: k + 1 for k, b in enumerate(i.get("backends") or [])}
         if o.get("error"):
             # the generated spec was rejected: a harness defect, never a pass
-            return Rec(mc_server=Rec(ms_filter="None", ms_rules="[]"), mc_reqs="[]",
+            return Rec(mc_gens="[]", mc_steps="[]",
                        mc_obs_on=L([T(N(999), N(999))]), mc_obs_off="[]", mc_obs_twin="[]")
-        rules = []
-        for ri, r in enumerate(i["rules"] or []):
-            paths = []
-            for pi, p in enumerate(r["paths"] or []):
-                paths.append(Rec(mp_filter=_ipf(p.get("filter"), orc["paths"][ri][pi]),
-                                 mp_has_hdr=B(bool(p.get("headers"))),
-                                 mp_backend=N(ids.get(p["backend"], 0))))
-            rules.append(Rec(mr_filter=_ipf(r.get("filter"), orc["rules"][ri]), mr_paths=L(paths)))
-        srv = Rec(ms_filter=_ipf(i.get("filter"), orc.get("server")), ms_rules=L(rules))
-        reqs = []
-        for q in orc.get("reqs") or []:
+        def server(sf, so, rfilt, rorc, pfilt, porc):
+            rules = []
+            for ri, r in enumerate(i["rules"] or []):
+                paths = []
+                for pi, p in enumerate(r["paths"] or []):
+                    paths.append(Rec(mp_filter=_ipf(pfilt(ri, pi), porc(ri, pi)),
+                                     mp_has_hdr=B(bool(p.get("headers"))),
+                                     mp_backend=N(ids.get(p["backend"], 0))))
+                rules.append(Rec(mr_filter=_ipf(rfilt(ri), rorc(ri)), mr_paths=L(paths)))
+            return Rec(ms_filter=_ipf(sf, so), ms_rules=L(rules))
+        gens = [server(i.get("filter"), orc.get("server"),
+                       lambda ri: i["rules"][ri].get("filter"), lambda ri: orc["rules"][ri],
+                       lambda ri, pi: i["rules"][ri]["paths"][pi].get("filter"), lambda ri, pi: orc["paths"][ri][pi])]
+        for g, go in zip(i.get("gens") or [], orc.get("gens") or []):
+            gens.append(server(g.get("filter"), go.get("server"),
+                               lambda ri, g=g: g["ruleFilters"][ri], lambda ri, go=go: go["rules"][ri],
+                               lambda ri, pi, g=g: g["pathFilters"][ri][pi], lambda ri, pi, go=go: go["paths"][ri][pi]))
+        steps = []
+        for q, rq in zip(orc.get("reqs") or [], i.get("reqs") or []):
             m = []
             for hm, pbs in zip(q["host"] or [], q["bits"] or []):
                 m.append(T(B(hm), L([Rec(pb_path=B(x[0]), pb_method=B(x[1]), pb_hdr=B(x[2])) for x in pbs or []])))
-            reqs.append(Rec(rq_ip=_addr(q.get("ip_ok"), q.get("fam"), q.get("val")), rq_key=N(q["key"]),
-                            rq_hit=B(q["hit"]), rq_m=L(m)))
-        return Rec(mc_server=srv, mc_reqs=L(reqs), mc_obs_on=_outs(o.get("on"), ids),
+            req = Rec(rq_ip=_addr(q.get("ip_ok"), q.get("fam"), q.get("val")), rq_key=N(q["key"]),
+                      rq_hit=B(q["hit"]), rq_m=L(m))
+            rl = "(Some %s)" % Nat(rq.get("gen") or 0) if rq.get("reload") else "None"
+            steps.append(T(rl, req))
+        return Rec(mc_gens=L(gens), mc_steps=L(steps), mc_obs_on=_outs(o.get("on"), ids),
                    mc_obs_off=_outs(o.get("off"), ids), mc_obs_twin=_outs(o.get("twin"), ids))
     raise ValueError(c["grp"])
 
@@ -165,7 +176,7 @@ def distribution(cases):
     d = dict(groups={}, v4_prefix_lengths=set(), v6_prefix_lengths=set(), entries=0, mapped_entries=0, rejected_entries=0,
              bare_v6_entries_by_colons={}, v6_entry_text=dict(upper_case=0, full_form=0, dotted_tail=0),
              clients=0, unparsable_clients=0, v6_clients=0, answers={"0": 0, "1": 0, "2": 0},
-             mux_requests=0, mux_hits=0, mux_status={}, mux_client_source={"remote": 0, "xrealip": 0, "xff": 0})
+             mux_requests=0, mux_reloads=0, mux_hits=0, mux_status={}, mux_client_source={"remote": 0, "xrealip": 0, "xff": 0})
     for c in cases:
         g = c["grp"]
         d["groups"][g] = d["groups"].get(g, 0) + 1
@@ -200,6 +211,8 @@ def distribution(cases):
         else:
             for q, rq in zip(orc.get("reqs") or [], c["in"].get("reqs") or []):
                 d["mux_requests"] += 1
+                if rq.get("reload"):
+                    d["mux_reloads"] += 1
                 d["mux_hits"] += bool(q.get("hit"))
                 src = "xff" if rq.get("xff") else ("xrealip" if rq.get("xrealip") else "remote")
                 d["mux_client_source"][src] += 1
